@@ -485,7 +485,7 @@ MANIFEST = {
     "text": "Static decision of the unit-bookkeeping clauses of C02: for all 11 field functions and each of B,H,J,M the returned value is typed over "
             "(length, excitation, mu0) and must carry the right power of mu0 (44 obligations, every branch visited once); no second permeability "
             "constant may exist (package-wide constant folding); the magnet setters must cross-assign with the exported mu0 and handle None. "
-            "Mask placement of the +J term and surface points are not decided. Also decided: the region where J/M are kept equals the region where +-J enters B/H in every magnet field function (reaching-definition comparison), and the two excitation attributes are written atomically and on every normal setter exit. Round 3: every comparison of the CylinderSegment angular span with 360 partitions the admitted spans alike across validator, field code and display (R8, finite orderings).",
+            "Mask placement of the +J term and surface points are not decided. Also decided: the region where J/M are kept equals the region where +-J enters B/H in every magnet field function (reaching-definition comparison), and the two excitation attributes are written atomically and on every normal setter exit. Round 3: every comparison of the CylinderSegment angular span with 360 partitions the admitted spans alike across validator, field code and display (R8, finite orderings). Rounds 6-7: per-axis sibling code uses one template per axis and names every axis once (R9), no store goes through an array-indexed copy (R10 lost update), selections are recognised by role (masks or row numbers).",
     "design_ref": "DESIGN.md §3 C02",
     "note": "Trusted: abstract interpreter + NumPy transfer table, declared parameter dimensions, one literal annotation (1e-7 = mu0/4pi), one triaged pure-number constant.",
     "technique": "static analysis: dimension-typing abstract interpretation, constant folding, def-use None-flow",
